@@ -299,6 +299,24 @@ def run(chk):
             chk.obligation(key, "event script")
             if run_script(chk, prog, sim, up, get, kind, script, key):
                 chk.discharge(key)
+    # with dimension checking compiled out (K4) the controller must still compare against the matching state component (a selection made
+    # by unit equality degenerates there: eq_assume_true is constantly true)
+    import report as _rp
+    p4 = load_config("K4")
+    chk.configs.append("K4")
+    s4 = S.Sim(p4)
+    up4 = p4.find_fn(name="update", self_name=NAME, trait="Updatable")
+    get4 = p4.find_fn(name="get", self_name=NAME, trait="Getter")
+    for kind in ("Velocity", "Acceleration"):
+        k4 = "run:%s:SSSS@K4" % kind
+        chk.obligation(k4, "event script with checking compiled out")
+        sub4 = _rp.Check("C11", chk.tier)
+        g4 = run_script(sub4, p4, s4, up4, get4, kind, [("S", "a"), ("S", "b"), ("S", "c"), ("S", "d")], k4)
+        chk.evaluations += sub4.evaluations
+        for v in sub4.violations:
+            chk.violation(v["rule"], v["key"] + "@K4", "[dimension checking compiled out] " + v["what"], **v["detail"])
+        if g4 and not sub4.violations:
+            chk.discharge(k4)
     check_impl_set(chk, prog, sim)
     check_gain_selection(chk, prog, sim)
     check_follow_kind_change(chk, prog, sim, up, get)
